@@ -200,7 +200,11 @@ def install(interp, track_obj_pred=None):
                 ticks[key] = (Sym("ticks(%s)" % (len(ticks)), 0, INF), args[0])
             return Lin.of(ticks[key][0])
         if name == "int" and args and isinstance(args[0], RatFun):
-            raise CannotDecide("int() of a symbolic value without rounding")
+            # truncation, not rounding: a different tick count than round()
+            key = "floor:" + repr(args[0])
+            if key not in ticks:
+                ticks[key] = (Sym("floor_ticks(%s)" % (len(ticks)), 0, INF), None)
+            return Lin.of(ticks[key][0])
         return orig_builtin(name, args, kwargs, node)
     interp.call_builtin = cb
     interp.delta_log = []
